@@ -453,6 +453,9 @@ func (w *world) dropK8sLink() {
 
 func (w *world) apply(o op, pause func()) {
 	w.gone, w.dead, w.entryChanged, w.mid = nil, nil, false, -1
+	if o.K == "trename" && !(w.shape == shK8s || w.shape == shLink || w.shape == shDangling) {
+		o.K = "rename" // no separate target: replacing the target is replacing the config path's entry
+	}
 	c := o.C
 	if c < 0 {
 		c = w.cur
@@ -586,11 +589,6 @@ func (w *world) apply(o op, pause func()) {
 	case "trename":
 		// atomic replacement of the TARGET file inside its own directory; the
 		// config path's entry (a symlink) is not touched
-		if !(w.shape == shK8s || w.shape == shLink || w.shape == shDangling) {
-			o.K = "rename"
-			w.apply(o, pause)
-			return
-		}
 		tmp := filepath.Join(filepath.Dir(w.target), fmt.Sprintf(".tmp-%d", w.next()))
 		writeFile(tmp, b)
 		pause()
